@@ -209,14 +209,14 @@ func checkLimitFlow(c *core.Ctx, m *RunModel, field string) {
 				if fn == m.Fn && m.InDeliver(call.Block()) {
 					return
 				}
-				cn := core.CalleeName(&call.Call)
+				cn := core.CalleeName(core.NormCall(&call.Call))
 				switch {
 				case cn == "(*math/big.Int).Cmp":
 					op, k, _ := cmpRejects(call)
 					if op == token.ILLEGAL {
 						return
 					}
-					limitIsArg := len(call.Call.Args) == 2 && call.Call.Args[1] == as
+					limitIsArg := len(core.NormCall(&call.Call).Args) == 2 && core.NormCall(&call.Call).Args[1] == as
 					// sell: reject when calculated < minimum: calc.Cmp(min) == -1  |  min.Cmp(calc) == 1
 					// buy:  reject when calculated > maximum: calc.Cmp(max) == 1   |  max.Cmp(calc) == -1
 					var good bool
@@ -228,8 +228,8 @@ func checkLimitFlow(c *core.Ctx, m *RunModel, field string) {
 					if good {
 						sinks = append(sinks, "direct comparison at "+c.PosStr(call.Pos()))
 					}
-				case strings.HasSuffix(cn, ".CheckSwap") && len(call.Call.Args) == 6:
-					isBuy, ok := core.Unwrap(call.Call.Args[5]).(*ssa.Const)
+				case strings.HasSuffix(cn, ".CheckSwap") && len(core.NormCall(&call.Call).Args) == 6:
+					isBuy, ok := core.Unwrap(core.NormCall(&call.Call).Args[5]).(*ssa.Const)
 					if !ok || isBuy.Value == nil {
 						return
 					}
@@ -238,7 +238,7 @@ func checkLimitFlow(c *core.Ctx, m *RunModel, field string) {
 					if wantBuy {
 						idx = 3 // valueIn
 					}
-					if b != wantBuy || !reachesArg(call.Call.Args[idx], as) {
+					if b != wantBuy || !reachesArg(core.NormCall(&call.Call).Args[idx], as) {
 						return
 					}
 					// the response must be returned when non-nil
@@ -330,7 +330,7 @@ func checkCheckSwap(c *core.Ctx) {
 			if !ok {
 				return
 			}
-			if core.CalleeName(&call.Call) == "(*math/big.Int).Cmp" && len(call.Call.Args) == 2 && call.Call.Args[1] == as {
+			if core.CalleeName(core.NormCall(&call.Call)) == "(*math/big.Int).Cmp" && len(core.NormCall(&call.Call).Args) == 2 && core.NormCall(&call.Call).Args[1] == as {
 				op, k, _ := cmpRejects(call)
 				if op == wantOp && k == wantK {
 					found = true
@@ -338,7 +338,7 @@ func checkCheckSwap(c *core.Ctx) {
 				return
 			}
 			if sc := call.Call.StaticCallee(); sc != nil && depth < 2 && sc.Blocks != nil && core.PkgOf(sc) == core.PkgOf(p.Parent()) && returnsResultOf(p.Parent(), call) {
-				for i, a := range call.Call.Args {
+				for i, a := range core.NormCall(&call.Call).Args {
 					if a == as && i < len(sc.Params) && search(sc.Params[i], wantOp, wantK, depth+1) {
 						found = true
 					}
@@ -362,9 +362,9 @@ func callOrigins(v ssa.Value) map[ssa.Value]bool {
 		case *ssa.Extract:
 			out[x.Tuple] = true
 		case *ssa.Call:
-			n := core.CalleeName(&x.Call)
-			if n == "(*math/big.Int).Set" && len(x.Call.Args) == 2 {
-				for k := range callOrigins(x.Call.Args[1]) {
+			n := core.CalleeName(core.NormCall(&x.Call))
+			if n == "(*math/big.Int).Set" && len(core.NormCall(&x.Call).Args) == 2 {
+				for k := range callOrigins(core.NormCall(&x.Call).Args[1]) {
 					out[k] = true
 				}
 				continue
@@ -429,10 +429,10 @@ func stringReceiver(v ssa.Value) ssa.Value {
 		return nil
 	}
 	call, ok := cv.X.(*ssa.Call)
-	if !ok || !strings.HasSuffix(core.CalleeName(&call.Call), ".String") || len(call.Call.Args) == 0 {
+	if !ok || !strings.HasSuffix(core.CalleeName(core.NormCall(&call.Call)), ".String") || len(core.NormCall(&call.Call).Args) == 0 {
 		return nil
 	}
-	return call.Call.Args[0]
+	return core.NormCall(&call.Call).Args[0]
 }
 
 func checkTradeTags(c *core.Ctx, m *RunModel) int {
@@ -471,8 +471,8 @@ func checkTradeTags(c *core.Ctx, m *RunModel) int {
 				// the pool functions hand back the amount they were given (amount0In / amount1Out):
 				// an amount taken from their results also carries the origins of their amount arguments
 				for k := range have {
-					if call, ok := k.(*ssa.Call); ok && (methodNameOfCall(call) == "PairSellWithOrders" || methodNameOfCall(call) == "PairBuyWithOrders") && len(call.Call.Args) >= 4 {
-						for _, a := range call.Call.Args[2:4] {
+					if call, ok := k.(*ssa.Call); ok && (methodNameOfCall(call) == "PairSellWithOrders" || methodNameOfCall(call) == "PairBuyWithOrders") && len(core.NormCall(&call.Call).Args) >= 4 {
+						for _, a := range core.NormCall(&call.Call).Args[2:4] {
 							for kk := range callOrigins(a) {
 								have[kk] = true
 							}
@@ -528,7 +528,7 @@ func checkSellAll(c *core.Ctx, m *RunModel) {
 			// pool form: the first hop debits amountIn of PairSellWithOrders whose input is balance − commission
 			for k := range callOrigins(mu.Site.Arg(2)) {
 				if call, ok := k.(*ssa.Call); ok && methodNameOfCall(call) == "PairSellWithOrders" {
-					if core.DependsOn(call.Call.Args[2], func(v ssa.Value) bool {
+					if core.DependsOn(core.NormCall(&call.Call).Args[2], func(v ssa.Value) bool {
 						for _, b := range balances {
 							if v == ssa.Value(b) {
 								return true
@@ -593,7 +593,7 @@ func checkHopSimulation(c *core.Ctx, rule string, m *RunModel) int {
 					gasVsHop = true
 				}
 			case *ssa.Call:
-				if methodNameOfCall(x) == "IsBaseCoin" && len(x.Call.Args) > 0 && loopVariant(x.Call.Args[0]) {
+				if methodNameOfCall(x) == "IsBaseCoin" && len(core.NormCall(&x.Call).Args) > 0 && loopVariant(core.NormCall(&x.Call).Args[0]) {
 					baseOfHop = true
 				}
 			}
@@ -681,11 +681,11 @@ func sameCallOnSameRecv(a, b ssa.Value) bool {
 	}
 	ra, rb := ca.Call.Value, cb.Call.Value
 	if !ca.Call.IsInvoke() {
-		if len(ca.Call.Args) != 1 || len(cb.Call.Args) != 1 {
+		if len(core.NormCall(&ca.Call).Args) != 1 || len(core.NormCall(&cb.Call).Args) != 1 {
 			return false
 		}
-		ra, rb = ca.Call.Args[0], cb.Call.Args[0]
-	} else if len(ca.Call.Args) != 0 || len(cb.Call.Args) != 0 {
+		ra, rb = core.NormCall(&ca.Call).Args[0], core.NormCall(&cb.Call).Args[0]
+	} else if len(core.NormCall(&ca.Call).Args) != 0 || len(core.NormCall(&cb.Call).Args) != 0 {
 		return false
 	}
 	return core.Unwrap(ra) == core.Unwrap(rb)
@@ -735,8 +735,8 @@ func checkComPool(c *core.Ctx, rule string, m *RunModel) int {
 					X = b
 				}
 			case *ssa.Call:
-				if methodNameOfCall(x) == "IsBaseCoin" && len(x.Call.Args) > 0 {
-					Y = x.Call.Args[0]
+				if methodNameOfCall(x) == "IsBaseCoin" && len(core.NormCall(&x.Call).Args) > 0 {
+					Y = core.NormCall(&x.Call).Args[0]
 				}
 			}
 		}
@@ -752,7 +752,7 @@ func checkComPool(c *core.Ctx, rule string, m *RunModel) int {
 		var P, Q ssa.Value
 		for o := range callOrigins(s.Recv()) {
 			if call, ok := o.(*ssa.Call); ok && methodNameOfCall(call) == "GetSwapper" {
-				args := call.Call.Args
+				args := core.NormCall(&call.Call).Args
 				if !call.Call.IsInvoke() && len(args) > 0 {
 					args = args[1:]
 				}
@@ -767,7 +767,7 @@ func checkComPool(c *core.Ctx, rule string, m *RunModel) int {
 		}
 		neg := func(v ssa.Value) bool {
 			call, ok := core.Unwrap(v).(*ssa.Call)
-			return ok && core.CalleeName(&call.Call) == "(*math/big.Int).Neg"
+			return ok && core.CalleeName(core.NormCall(&call.Call)) == "(*math/big.Int).Neg"
 		}
 		a0, a1 := s.Arg(0), s.Arg(1)
 		switch {
